@@ -285,7 +285,14 @@ class Variable(Expression):
                 available_keys=list(values.keys()),
             )
         value = values[self.name]
-        # Return as-is, can be array or scalar
+        # A point given as integers (Python int, NumPy integer scalar or array)
+        # denotes real numbers: integer arithmetic would overflow (3000000 ** 3)
+        # or refuse negative powers (2 ** -1)
+        if isinstance(value, (int, np.integer)) and not isinstance(value, bool):
+            return float(value)
+        if isinstance(value, np.ndarray) and value.dtype.kind in "iu":
+            return value.astype(np.float64)
+        # Otherwise as-is, can be array or scalar
         return value  # type: ignore[return-value]
 
     def get_variables(self) -> set[Variable]:
